@@ -939,3 +939,32 @@ Qed.
 
 Lemma mid_stmt_default t st v same : mid_stmt t st None v same = mid_stmt t st (Some 255) v same.
 Proof. reflexivity. Qed.
+
+(* composition: a string function result used as the source is a value, not the target's buffer *)
+Lemma mid_stmt_src_value t st n v : mid_stmt_src t st n (Ok v) = mid_stmt t st n v false.
+Proof. reflexivity. Qed.
+
+Lemma mid_stmt_src_err t st n e : in16 st -> in16 n -> midstmt_valid t st n ->
+  mid_stmt_src t st (Some n) (Err e) = Err e.
+Proof.
+  intros I1 I2 [V1 V2]. unfold mid_stmt_src. rewrite !to_int_ok by assumption. cbn [bind].
+  change strfn_midstmt_num_lo with 0. change strfn_midstmt_num_hi with 255.
+  change strfn_midstmt_start_lo with 1.
+  rewrite range_ok by exact V1. cbn [bind].
+  destruct (n >? 0) eqn:E.
+  - rewrite range_ok by (apply V2; lia). reflexivity.
+  - reflexivity.
+Qed.
+
+Lemma lset_src_value t v r : lset_src t (Ok v) r = lset t v r.
+Proof. reflexivity. Qed.
+
+Lemma mid_stmt_src_left t st n : in16 st -> in16 n -> midstmt_valid t st n -> (length t <= 255)%nat ->
+  mid_stmt_src t st (Some n) (left_ t 255) = Ok (ref_midset t st n t).
+Proof.
+  intros I1 I2 V L.
+  assert (E : left_ t 255 = Ok t).
+  { rewrite (proj1 (left_spec t 255)) by lia. unfold ref_left. f_equal. apply firstn_all2. lia. }
+  rewrite E, mid_stmt_src_value. rewrite (mid_stmt_checks t st n t false I1 I2 V).
+  exact (midset_copy t st n t V).
+Qed.
